@@ -49,16 +49,25 @@ func C05(p *load.Prog, r *report.Report) {
 				}
 				return []absint.Value{ptr(a), ptr(m.newElem(it, "Q", P2.X, P2.Y, P2.Z))}
 			}, func(res *absint.PathResult) {
-				if res.Exit != "return" || len(res.Guards) > 0 {
-					r.Undecided("C05.equal", name, p.Pos(fn.Pos()), "not a straight-line comparison: "+res.Exit+" "+res.Abort+" "+guardString(res))
+				if res.Exit != "return" {
+					r.Undecided("C05.equal", name, p.Pos(fn.Pos()), res.Exit+" "+res.Abort+" "+guardString(res))
 					return
 				}
-				if reportEvents(p, r, "C05.equal", name, res) {
+				hyp := newPathHyp(res.It, "1", "2")
+				cname := name
+				if len(res.Guards) > 0 {
+					if !hyp.ok {
+						r.Undecided("C05.equal", name+" path "+shortGuards(res), p.Pos(fn.Pos()), "the comparison branches on data the analysis cannot relate to the operands: "+hyp.String())
+						return
+					}
+					cname = name + " [" + hyp.String() + "]"
+				}
+				if reportEvents(p, r, "C05.equal", cname, res) {
 					return
 				}
 				got, ok := retTerm(res.It, res.Ret)
 				if !ok {
-					r.Undecided("C05.equal", name, p.Pos(fn.Pos()), "result is "+absint.Show(res.Ret))
+					r.Undecided("C05.equal", cname, p.Pos(fn.Pos()), "result is "+absint.Show(res.Ret))
 					return
 				}
 				Q := P2
@@ -66,8 +75,9 @@ func C05(p *load.Prog, r *report.Report) {
 					Q = P1
 				}
 				want := absint.ISZ(P1.X.Mul(Q.Z).Sub(Q.X.Mul(P1.Z))).Mul(absint.ISZ(P1.Y.Mul(Q.Z).Sub(Q.Y.Mul(P1.Z))))
-				r.Check(got.Equal(want), "C05.equal", name, p.Pos(fn.Pos()), "result = "+want.String(), fmt.Sprintf("result is %s, expected %s", got, want))
-				r.Sample(map[string]interface{}{"case": name, "result": got.String()})
+				g2, w2 := hyp.term(res.It.DeepApplyTerm(got)), hyp.term(res.It.DeepApplyTerm(want))
+				r.Check(g2.Equal(w2), "C05.equal", cname, p.Pos(fn.Pos()), "result = "+w2.String(), fmt.Sprintf("result is %s, expected %s", g2, w2))
+				r.Sample(map[string]interface{}{"case": cname, "result": g2.String()})
 				// operands unchanged
 				for _, c := range res.It.InputRoots() {
 					x, y, z, why := m.coords(res.It, c)
